@@ -591,6 +591,10 @@ func (ch *channel) deriveAndSetFrameRates(log *slog.Logger) {
 		}
 		prod := nrFrames * timeScale
 		frCGD := GCDuint32(prod, dur)
+		if frCGD == 0 { // no samples and no duration: nothing to derive a frame rate from
+			log.Warn("Cannot derive frame rate from an empty segment", "trName", name)
+			continue
+		}
 		nom := prod / frCGD
 		denom := dur / frCGD
 	repLoop:
